@@ -396,9 +396,23 @@ pub fn c16(s: &mut Sess, seed: u64, tier: &str) {
             for _ in 0..8 {
                 qs.push(r.gen::<u64>() >> r.gen_range(0, 64) as u32);
             }
+            // get_key_into appends to whatever the caller's buffer holds: short, long (longer
+            // than the FST itself) and empty buffers
+            let size = s.fsts[f - 1].0.len();
+            let long1: Vec<u8> = (0..size + 7).map(|i| (i % 251) as u8).collect();
+            let long2: Vec<u8> = vec![b'p'; std::cmp::max(1, size.saturating_sub(2))];
             for q in qs {
-                let prefix: &[u8] = if r.gen_range(0, 3) == 0 { b"buf:" } else { b"" };
-                s.get_key(f, q, prefix);
+                let prefix: &[u8] = match r.gen_range(0, 8) {
+                    0 | 1 => b"buf:",
+                    2 => &long1,
+                    3 => &long2,
+                    _ => b"",
+                };
+                if prefix.len() > 600 && r.gen_range(0, 4) != 0 {
+                    s.get_key(f, q, b"");
+                } else {
+                    s.get_key(f, q, prefix);
+                }
             }
         }
     }
